@@ -33,6 +33,9 @@ type c05Case struct {
 	PrevC, PrevM int64
 	// end-to-end single scans with out-of-service nodes present
 	U, Tn, Cn, Fn, Need int
+	// Launching: instances the ASG has requested but that have not started yet (desired capacity is
+	// ahead of the instance count)
+	Launching int
 }
 
 // c05Eval runs the real arithmetic on one case. ok=false means the case is not in the property's
@@ -210,6 +213,7 @@ func c05Mixed(p c05Case) *h.Scenario {
 			add(p.U, sim.NodeOpt{})
 			add(p.Tn, sim.NodeOpt{TaintAge: dp(0)})
 			add(p.Fn, sim.NodeOpt{ForceTaint: true})
+			a.Desired += int64(p.Launching)
 			hh.W.AddPod(podOn(g, "", int64(p.T)*10*int64(p.U+p.Need)))
 		},
 	}
@@ -365,12 +369,17 @@ func c05Grid(t *testing.T, tier string, shard, shards int, c *h.Collector) {
 							if mixed%shards != shard {
 								continue
 							}
-							p := c05Case{T: th, U: u, Tn: tn, Cn: cn, Fn: fn, Need: need, EndToEnd: true, C: 1000, M: 4 << 30}
-							s := c05Mixed(p)
-							s.Monitors = func() []h.Monitor { return []h.Monitor{NewDecisions()} }
-							hh := gridCase(t, c, s, p)
-							for _, k := range seenKeys(hh) {
-								c.Nontrivial(fmt.Sprintf("mixed/%d/%s", th, k))
+							for _, launching := range []int{0, 2} {
+								if launching > 0 && (cn > 0 || fn > 0) {
+									continue
+								}
+								p := c05Case{T: th, U: u, Tn: tn, Cn: cn, Fn: fn, Need: need, EndToEnd: true, C: 1000, M: 4 << 30, Launching: launching}
+								s := c05Mixed(p)
+								s.Monitors = func() []h.Monitor { return []h.Monitor{NewDecisions()} }
+								hh := gridCase(t, c, s, p)
+								for _, k := range seenKeys(hh) {
+									c.Nontrivial(fmt.Sprintf("mixed/%d/l%d/%s", th, launching, k))
+								}
 							}
 						}
 					}
@@ -455,7 +464,7 @@ func init() {
 		ID:    "C05",
 		Level: "model_checking",
 		Rule: "bounded-exhaustive grid through the real percent and delta arithmetic: n 0..6 (12 thorough) equal nodes x node CPU sizes x memory sizes x thresholds 1..100,120,150,200 x every target n..n+10 with requests exactly on 100*R = T*N*size and +/-1 unit, CPU-bound, memory-bound and both, plus an interior sweep; " +
-			"end to end on the real controller: single scans of groups holding tainted, cordoned (odd-sized) and force-tainted nodes next to 1..4 untainted ones; two- and three-scan scale-from-zero histories (cached size from the first listed node, two list orders; the node size changing before the group drains; never having seen a node); mixed groups explored with every get / update of the untaint loop failing; groups at min_nodes with an over-age node and high utilisation; clusters of 100..1000 nodes of 256 GiB. " +
+			"end to end on the real controller: single scans of groups holding tainted, cordoned (odd-sized) and force-tainted nodes next to 1..4 untainted ones, with the ASG's desired capacity equal to or ahead of its instance count; two- and three-scan scale-from-zero histories (cached size from the first listed node, two list orders; the node size changing before the group drains; never having seen a node); mixed groups explored with every get / update of the untaint loop failing; groups at min_nodes with an over-age node and high utilisation; clusters of 100..1000 nodes of 256 GiB. " +
 			"non-trivial = cases where exact and float utilisation exceed the threshold; distinct = (n, sizes, threshold, requests)",
 		Grid:            c05Grid,
 		ReplayCase:      c05Replay,
